@@ -86,6 +86,18 @@ func GenOptions(t *rapid.T) Options {
 	o.ColumnsRepeated = rapid.Bool().Draw(t, "columns_repeated")
 	o.Noise = rapid.Bool().Draw(t, "noise")
 	o.Version11 = rapid.IntRange(0, 3).Draw(t, "v11") == 3
+	if rapid.IntRange(0, 3).Draw(t, "extras") == 3 {
+		// members LibreOffice writes besides the ones tabula reads
+		o.Extra = []wpmodel.Member{
+			{Name: "settings.xml", Data: []byte(`<?xml version="1.0" encoding="UTF-8"?><office:document-settings xmlns:office="` + NsOffice + `" office:version="1.2"/>`)},
+			{Name: "Thumbnails/thumbnail.png", Data: []byte{0x89, 'P', 'N', 'G'}},
+			{Name: "Configurations2/"},
+			{Name: "layout-cache", Data: []byte{1, 2, 3}},
+		}
+		if o.Order != nil {
+			o.Order = rapid.Permutation([]int{0, 1, 2, 3, 4, 5, 6, 7, 8, 9, 10}).Draw(t, "order_extras")
+		}
+	}
 	return o
 }
 
@@ -507,6 +519,9 @@ func (w *writer) para(x *wpmodel.XW, name string, kv []string, p wpmodel.Para, b
 		for k := len(ends) - 1; k >= 0; k-- {
 			x.CloseInline(ends[k])
 		}
+	}
+	if w.o.Noise && len(p) > 1 {
+		x.EmptyInline(w.text+":span", w.text+":style-name", "T1") // an empty span (§6.1.7: content optional)
 	}
 	x.CloseInline(name)
 }
